@@ -196,6 +196,8 @@ fn usage_case(var_ty: Type, loc_ty: Type, exclude_known: bool) {
     let want = ref_usage_allowed(&var_ty, &loc_ty, vk, loc_has_default);
     let loc_nn = is_nn(&loc_ty);
     let var_nn = is_nn(&var_ty);
+    // types of different list nesting are never compatible: only expect an allowed usage when the nesting agrees
+    let same_nesting = depth_of(&var_ty) == depth_of(&loc_ty);
     let def = ast::VariableDefinition {
         name: Name::new_static_unchecked("v"),
         ty: Node::new(var_ty),
@@ -217,7 +219,7 @@ fn usage_case(var_ty: Type, loc_ty: Type, exclude_known: bool) {
     std::mem::forget(def);
     std::mem::forget(usage);
     assert!(got == want);
-    kani::cover!(got, "some allowed usage of these shapes");
+    kani::cover!(got || !same_nesting, "some allowed usage of these shapes (when the list nesting agrees)");
     kani::cover!(!got, "some rejected usage of these shapes");
     kani::cover!(vk == 1, "null variable default in the domain");
     kani::cover!(vk >= 2 && loc_has_default, "non-null variable default and location default together");
